@@ -41,11 +41,98 @@ func genApi(ps []pkgInfo) string {
 			}
 		}
 	}
+	sites = attributePanics(ps, sites)
 	sort.Strings(api)
 	sort.Strings(sites)
 	fmt.Fprintf(&b, "Definition api : list (string * string * bool) := %s.\n", coqListNL(api, "    "))
 	fmt.Fprintf(&b, "Definition panic_sites : list (string * string * string) := %s.\n", coqListNL(sites, "    "))
 	return b.String()
+}
+
+// attributePanics: an explicit panic inside an unexported plain function belongs to the exported functions that reach it
+// through calls inside the package (extracting a helper does not change who can panic).
+func attributePanics(ps []pkgInfo, sites []string) []string {
+	callers := map[string]map[string]bool{} // "pkg.callee" -> set of "pkg.caller" (plain functions only)
+	exported := map[string]bool{}
+	for _, pi := range ps {
+		for _, f := range pi.p.Syntax {
+			for _, d := range f.Decls {
+				fd, ok := d.(*ast.FuncDecl)
+				if !ok || fd.Body == nil || fd.Recv != nil {
+					continue
+				}
+				caller := pi.short + "." + fd.Name.Name
+				if fd.Name.IsExported() {
+					exported[caller] = true
+				}
+				ast.Inspect(fd.Body, func(n ast.Node) bool {
+					c, ok := n.(*ast.CallExpr)
+					if !ok {
+						return true
+					}
+					fun := c.Fun
+					if ix, ok := fun.(*ast.IndexExpr); ok { // generic instantiation f[T](..)
+						fun = ix.X
+					}
+					if ix, ok := fun.(*ast.IndexListExpr); ok {
+						fun = ix.X
+					}
+					if id, ok := fun.(*ast.Ident); ok {
+						if obj, ok := pi.p.TypesInfo.ObjectOf(id).(*types.Func); ok && obj.Pkg() == pi.p.Types {
+							callee := pi.short + "." + obj.Name()
+							if callers[callee] == nil {
+								callers[callee] = map[string]bool{}
+							}
+							callers[callee][caller] = true
+						}
+					}
+					return true
+				})
+			}
+		}
+	}
+	roots := func(fn string) []string {
+		seen := map[string]bool{fn: true}
+		work := []string{fn}
+		var out []string
+		for len(work) > 0 {
+			x := work[0]
+			work = work[1:]
+			for c := range callers[x] {
+				if seen[c] {
+					continue
+				}
+				seen[c] = true
+				if exported[c] {
+					out = append(out, c)
+				} else {
+					work = append(work, c)
+				}
+			}
+		}
+		sort.Strings(out)
+		return out
+	}
+	var out []string
+	for _, sline := range sites {
+		// (fn, kind, expr)
+		parts := strings.SplitN(strings.TrimPrefix(sline, "(\""), "\", \"", 3)
+		if len(parts) == 3 && parts[1] == "panic" {
+			fn := parts[0]
+			dot := strings.LastIndex(fn, ".")
+			name := fn[dot+1:]
+			if dot >= 0 && !strings.Contains(name, "_") && name != "" && !(name[0] >= 'A' && name[0] <= 'Z') {
+				if rs := roots(fn); len(rs) > 0 {
+					for _, r := range rs {
+						out = append(out, fmt.Sprintf("(%s, %s, %s)", coqStr(r), coqStr("panic"), coqStr("in "+fn)))
+					}
+					continue
+				}
+			}
+		}
+		out = append(out, sline)
+	}
+	return out
 }
 
 func recvExported(fd *ast.FuncDecl) bool {
@@ -169,6 +256,9 @@ func genEffects(all []*packages.Package, ps []pkgInfo) string {
 	}
 	sort.Slice(list, func(i, j int) bool { return list[i].String() < list[j].String() })
 	seen := map[string]bool{}
+	fnEff := map[*ssa.Function][]string{}
+	fnName := map[*ssa.Function]string{}
+	var order []*ssa.Function
 	for _, fn := range list {
 		name := strings.ReplaceAll(fn.String(), "github.com/ldclabs/cose/", "")
 		if seen[name] {
@@ -255,12 +345,100 @@ func genEffects(all []*packages.Package, ps []pkgInfo) string {
 			}
 		}
 		visit(fn, "")
-		sort.Strings(es)
 		sort.Strings(cs)
-		effs = append(effs, fmt.Sprintf("(%s, %s)", coqStr(name), coqList(es)))
+		fnEff[fn] = es
+		fnName[fn] = name
+		order = append(order, fn)
 		if len(cs) > 0 {
 			calls = append(calls, fmt.Sprintf("(%s, %s)", coqStr(name), coqList(cs)))
 		}
+	}
+	// interprocedural step: a callee that writes through one of its parameters (or its receiver) writes whatever the
+	// caller passed there. Effects rooted at a callee's parameter / receiver are mapped through the call's arguments
+	// into the caller, to a fixpoint. (Writes to package-level variables stay attributed to the function that makes them.)
+	type eff struct{ kind, root string }
+	parse := func(k string) eff {
+		// k is `("kind", "root")`
+		parts := strings.SplitN(strings.TrimSuffix(strings.TrimPrefix(k, "(\""), "\")"), "\", \"", 2)
+		if len(parts) != 2 {
+			return eff{k, ""}
+		}
+		return eff{parts[0], parts[1]}
+	}
+	have := map[*ssa.Function]map[string]bool{}
+	for _, fn := range order {
+		have[fn] = map[string]bool{}
+		for _, k := range fnEff[fn] {
+			have[fn][k] = true
+		}
+	}
+	for iter := 0; iter < 12; iter++ {
+		changed := false
+		for _, g := range order {
+			var walk func(f *ssa.Function)
+			walk = func(f *ssa.Function) {
+				for _, blk := range f.Blocks {
+					for _, ins := range blk.Instrs {
+						ci, ok := ins.(ssa.CallInstruction)
+						if !ok {
+							continue
+						}
+						c := ci.Common()
+						callee := c.StaticCallee()
+						if callee == nil || c.IsInvoke() {
+							continue
+						}
+						ces, ok := fnEff[callee]
+						if !ok {
+							continue
+						}
+						for _, k := range ces {
+							e := parse(k)
+							var r string
+							switch {
+							case strings.HasPrefix(e.root, "param:"):
+								pn := strings.TrimPrefix(e.root, "param:")
+								for i, prm := range callee.Params {
+									if prm.Name() == pn && i < len(c.Args) {
+										r = root(c.Args[i], 0)
+									}
+								}
+							case strings.HasPrefix(e.root, "recv") && callee.Signature.Recv() != nil && len(c.Args) > 0:
+								r0 := root(c.Args[0], 0)
+								if r0 != "local" && r0 != "unknown" {
+									r = r0 + strings.TrimPrefix(e.root, "recv")
+								}
+							}
+							if r == "" || r == "local" || r == "unknown" || strings.HasPrefix(r, "result-of:") {
+								continue
+							}
+							kind := e.kind
+							if !strings.HasPrefix(kind, "via-call:") {
+								kind = "via-call:" + kind
+							}
+							nk := fmt.Sprintf("(%s, %s)", coqStr(kind), coqStr(r))
+							if !have[g][nk] {
+								have[g][nk] = true
+								fnEff[g] = append(fnEff[g], nk)
+								changed = true
+							}
+						}
+					}
+				}
+				for _, af := range f.AnonFuncs {
+					walk(af)
+				}
+			}
+			walk(g)
+		}
+		if !changed {
+			break
+		}
+	}
+	for _, fn := range order {
+		es := fnEff[fn]
+		sort.Strings(es)
+		effs = append(effs, fmt.Sprintf("(%s, %s)", coqStr(fnName[fn]), coqList(es)))
 	}
 	fmt.Fprintf(&b, "Definition effects : list (string * list (string * string)) := %s.\n", coqListNL(effs, "    "))
 	fmt.Fprintf(&b, "Definition recv_field_calls : list (string * list string) := %s.\n", coqListNL(calls, "    "))
